@@ -121,7 +121,7 @@ def r2(ctx):
         ctx.check(len(hs) == 1, "process_iin:%s:site" % h, "%s is called" % h, pb.where(line=pb.line))
         for c in hs:
             ctx.require_guards(pb, c.idx, [("iin.%s()" % getter, g_bool(lambda x, getter=getter: mentions_call(x, r"::%s$" % getter), True))], "process_iin:%s" % h, h)
-            ctx.check(len(ctx.guards_at(pb, c.idx)) == 1, "process_iin:%s:only-that" % h, "no other condition", pb.where(c.idx))
+            ctx.check(len({g.edge for g in ctx.guards_at(pb, c.idx)}) == 1, "process_iin:%s:only-that" % h, "no other condition", pb.where(c.idx))
     for k in (1, 2, 3):
         ws = field_writes(pb, "class%d" % k)
         ok = len(ws) == 1 and mentions_call(ps.rvalue_expr(ws[0][2].rv), r"::get_class_%d_events$" % k)
